@@ -134,7 +134,7 @@ fn judge(
         let mut stable = true;
         if let Some(sw) = sw {
             for _ in 0..2 {
-                let acc = engine::run_one(sw.as_ref(), v.shard, v.seq);
+                let acc = engine::rerun(sw.as_ref(), v.shard, v.seq, &v.case);
                 if !acc.viols.contains_key(&sig) {
                     stable = false;
                 }
@@ -156,7 +156,7 @@ fn judge(
             sig,
             count,
             v.case,
-            v.detail.replace('\n', "\\n")
+            v.detail.replace('\n', "\\n").chars().take(700).collect::<String>()
         );
         out.violations += 1;
     }
@@ -279,11 +279,11 @@ fn find_sweep(id: &str, tier: Tier, name: &str) -> Option<Box<dyn engine::Sweep>
     check.sweeps(tier).into_iter().find(|s| s.name() == name)
 }
 
-fn probe(id: &str, tier: Tier, sweep: &str, shard: usize, seq: u64) -> i32 {
+fn probe(id: &str, tier: Tier, sweep: &str, shard: usize, seq: u64, case: &Value) -> i32 {
     engine::install_panic_hook();
     match find_sweep(id, tier, sweep) {
         Some(sw) => {
-            let acc = engine::run_one(sw.as_ref(), shard, seq);
+            let acc = engine::rerun(sw.as_ref(), shard, seq, case);
             if acc.viols.is_empty() {
                 0
             } else {
@@ -312,7 +312,7 @@ fn replay(path: &str) -> i32 {
     let shard = v["shard"].as_u64().unwrap_or(0) as usize;
     let seq = v["seq"].as_u64().unwrap_or(0);
     println!("replaying {} sweep={} shard={} seq={} case={}", id, sweep, shard, seq, v["case"]);
-    let rc = probe(id, tier, sweep, shard, seq);
+    let rc = probe(id, tier, sweep, shard, seq, &v["case"]);
     if rc == 1 {
         println!("VIOLATION property={} replay={}", id, path);
     } else if rc == 0 {
@@ -461,6 +461,7 @@ fn main() {
             a(4),
             a(5).parse().unwrap_or(0),
             a(6).parse().unwrap_or(0),
+            &Value::Null,
         ),
         "replay" => replay(a(2)),
         "lex" => {
